@@ -243,6 +243,8 @@ type c07Gen struct {
 	inject  bool // still wants to inject one conflict
 	shape   map[string]int
 	inBlock int
+
+	forceMasked bool
 }
 
 func (g *c07Gen) nextVal() int64 { g.val++; return 10 + g.val }
@@ -290,7 +292,29 @@ func (g *c07Gen) conflictWith(l *c07Loan) {
 	if l.mut {
 		kinds = append(kinds, "read", "shared_borrow_call", "shared_borrow_let")
 	}
+	// A read-like access that a newer shared loan on a disjoint part would allow, but the older
+	// mutable loan forbids (the conflict must be found behind the most recent overlapping loan).
+	masked := false
+	if l.mut {
+		for i, older := range g.live {
+			if older != l {
+				continue
+			}
+			for _, newer := range g.live[i+1:] {
+				if newer.mut || c07Overlap(newer.p, l.p) {
+					continue
+				}
+				if q, ok2 := g.pick(func(q c07Place) bool { return c07Overlap(q, l.p) && c07Overlap(q, newer.p) }, "masked_place"); ok2 && (g.forceMasked || rapid.Bool().Draw(g.t, "masked")) {
+					p, masked = q, true
+					kinds = []string{"read", "read", "shared_borrow_let"}
+				}
+			}
+		}
+	}
 	k := rapid.SampledFrom(kinds).Draw(g.t, "conflict_kind")
+	if masked {
+		g.shape["conflict_behind_newer_shared_loan"]++
+	}
 	switch k {
 	case "write":
 		g.emit(c07Ev{Kind: "write", P: p, Val: g.nextVal(), Injected: true})
@@ -345,6 +369,14 @@ func (g *c07Gen) body(budget, depth int) {
 					g.shape["reference_copy"]++
 				}
 			}
+			if !ok && !mut && g.inject && rapid.IntRange(0, 3).Draw(g.t, "sibling_of_mut_loan") != 0 {
+				// prefer a disjoint part of a variable that an older mutable loan holds a part of
+				for _, o := range g.live {
+					if o.mut && !ok {
+						p, ok = g.pick(func(q c07Place) bool { return q.root == o.p.root && !c07Overlap(q, o.p) && g.safe(q, kind) }, "sibling_place")
+					}
+				}
+			}
 			if !ok {
 				p, ok = g.pick(func(p c07Place) bool { return g.safe(p, kind) }, "place")
 			}
@@ -358,6 +390,17 @@ func (g *c07Gen) body(budget, depth int) {
 			g.shape["episode"]++
 			if len(g.live) > 1 {
 				g.shape["nested_episode"]++
+			}
+			if g.inject && !mut {
+				// an older mutable loan on a disjoint part of the same variable: a read of the whole
+				// is allowed by this loan but not by the older one
+				for _, o := range g.live[:len(g.live)-1] {
+					if g.inject && o.mut && o.p.root == p.root && !c07Overlap(o.p, p) && rapid.IntRange(0, 3).Draw(g.t, "inject_masked") != 0 {
+						g.forceMasked = true
+						g.conflictWith(o)
+						g.forceMasked = false
+					}
+				}
 			}
 			if depth > 0 {
 				g.body(rapid.IntRange(0, 3).Draw(g.t, "inner"), depth-1)
